@@ -41,6 +41,12 @@ func (core *JApiCore) collectPiecesOfPathVariables() *jerr.JApiError {
 			types = core.rawPathVariables[i].schema.InnerTypesList()
 		}
 
+		// All properties of the Path body, for the check at the end of the iteration.
+		allProps := make(map[string]ischema.Node, len(schemaProps))
+		for k, v := range schemaProps {
+			allProps[k] = v
+		}
+
 		// imitated piece should not participate in duplicate definition validation
 		for _, pp := range core.rawPathVariables[i].parameters {
 			piece, registered := core.piecesOfPathVariables[pp]
@@ -75,8 +81,45 @@ func (core *JApiCore) collectPiecesOfPathVariables() *jerr.JApiError {
 			return core.rawPathVariables[i].pathDirective.KeywordError(
 				fmt.Sprintf("Has unused parameters %q in schema", ss))
 		}
+
+		if je := core.checkPathBody(core.rawPathVariables[i], allProps, types); je != nil {
+			return je
+		}
 	}
 
+	return nil
+}
+
+// checkPathBody reports the errors of the body of a Path directive which are found
+// only when its schema is built and serialized (an example which contradicts its
+// rule, an unknown type in a union, ...) on the Path directive, while it is known.
+func (core *JApiCore) checkPathBody(
+	r rawPathVariable,
+	props map[string]ischema.Node,
+	types map[string]ischema.Type,
+) *jerr.JApiError {
+	if len(props) == 0 {
+		return nil
+	}
+
+	names := make([]string, 0, len(props))
+	for k := range props {
+		names = append(names, k)
+	}
+	sort.Strings(names)
+
+	b := catalog.NewPathVariablesBuilder(core.catalog.UserTypes)
+	for _, k := range names {
+		b.AddProperty(k, props[k].Copy(), types)
+	}
+
+	pv, err := b.Build()
+	if err != nil {
+		return core.pathVariablesError(err)
+	}
+	if err := pv.CheckSerialization(); err != nil {
+		return r.pathDirective.KeywordError(err.Error())
+	}
 	return nil
 }
 
